@@ -474,6 +474,15 @@ func (ts *TypeSystem) parseUnion(t *Type, v model.Val, repr bool) (model.Val, er
 		if v.K != model.KString {
 			return bad("stringprefix union %s expects a string", t.Name)
 		}
+		if t.Delim == "" {
+			// no delimiter: the discriminant is a bare prefix of the string, members tried in their stated order
+			for _, m := range t.Members {
+				if strings.HasPrefix(v.S, t.Discr[m]) {
+					return member(m, model.String(v.S[len(t.Discr[m]):]), true)
+				}
+			}
+			return bad("%q is not a prefix of union %s", v.S, t.Name)
+		}
 		parts := strings.SplitN(v.S, t.Delim, 2)
 		if len(parts) != 2 {
 			return bad("no delimiter in %q", v.S)
